@@ -57,9 +57,13 @@ def universe(tier, seed):
                 fam.append(seq(group(alt(X, Y)), group(alt(X2, Y2))))
     if tier == 'quick':
         fam = fam[seed % 2::2]
-    for e in fam:
+    # every third grammar of the family marks its helper rules @nostak (a decorator that must not change any result)
+    ryn = rule('y', alt(tok('b'), seq(tok('a'), tok('b'))), nostak=True)
+    rzn = rule('Z', named('z', pat(['a', 'b'], 1, False)), nostak=True)
+    for k, e in enumerate(fam):
         used = calls(e)
-        g = grammar(rule('s', e), *([ry] if 'y' in used else []), *([rz] if 'Z' in used else []))
+        y_, z_ = (ryn, rzn) if k % 3 == 0 else (ry, rz)
+        g = grammar(rule('s', e), *([y_] if 'y' in used else []), *([z_] if 'Z' in used else []))
         items.append({'g': g, 'texts': all_texts(['a', 'b'], 3), 'label': 'retry', 'cfg': {'act': 'failb', 'nameguard': False},
                       'settings': {'nameguard': False}, 'case': {'sem': 'failb'}})
     # cuts inside left-recursive rules (pruning must not touch the seeds of a recursion in progress)
